@@ -328,6 +328,9 @@ func (x *c10Exec) createData(st c10Step, id string) map[string]any {
 	if st.UserRole {
 		d["extra_info"] = map[string]any{"enable_user_role": true}
 	}
+	if st.NoAuto {
+		d["disable_auto_start"] = true
+	}
 	srcDB, c := st.Spec.DB, st.Spec.Coll
 	if srcDB == "*" {
 		srcDB = "d1"
